@@ -682,3 +682,63 @@ func (x *codecExplorer) repetitionFamily(m *bind.Msg, second []tok) {
 		}
 	}
 }
+
+// The relation family: two variable-length elements (mandatory or optional, any two of the message) whose lengths stand
+// in a simple relation — equal, one double the other, one longer by one — for every base length that both bounds allow
+// up to 40 and for 100, 255, 256. A slip that compares or subtracts two lengths shows only when they are related; the
+// pair alphabets of the other families hold one of the two at its minimum.
+func (x *codecExplorer) relationFamily(m *bind.Msg) {
+	var vs []int
+	for i := range m.Slots {
+		s := &m.Slots[i]
+		if s.LenSize > 0 && !s.Half && s.Min != s.Max && len(s.Alts) == 0 {
+			vs = append(vs, i)
+		}
+	}
+	if len(vs) < 2 {
+		return
+	}
+	var bases []int
+	for l := 0; l <= 40; l++ {
+		bases = append(bases, l)
+	}
+	bases = append(bases, 100, 255, 256)
+	for _, a := range vs {
+		if !x.mine() {
+			continue
+		}
+		if !x.c.Begin("relation", m.Name, map[string]any{"msg": m.Name, "slot": m.Slots[a].Name}) {
+			continue
+		}
+		sa := &m.Slots[a]
+		for _, b := range vs {
+			if b == a {
+				continue
+			}
+			sb := &m.Slots[b]
+			for _, l := range bases {
+				for _, rel := range [][2]int{{l, l}, {l, 2 * l}, {l, l + 1}} {
+					la, lb := rel[0], rel[1]
+					if la < sa.Min || la > sa.Max || lb < sb.Min || lb > sb.Max {
+						continue
+					}
+					ov := map[int]tok{}
+					var opt []byte
+					for _, e := range [][2]int{{a, la}, {b, lb}} {
+						t := tok{Slot: e[0], L: e[1], Pat: 1}
+						if m.Slots[e[0]].Optional {
+							opt = append(opt, renderTok(m, t)...)
+						} else {
+							ov[e[0]] = t
+						}
+					}
+					full := append(renderMandatoryMulti(m, ov), opt...)
+					x.states++
+					x.trans += 2
+					x.run1(m, full)
+				}
+			}
+		}
+		x.c.Tick()
+	}
+}
